@@ -81,6 +81,9 @@ void SimBackend::InitCustomOptions() {
   AddStoredOption("tech:flagopt flagopt", "Flag option.", opts_.flag_opt_);
   AddListOption("tech:listopt listopt", "List option.", opts_.list_opt_);
   AddListOption("tech:strlistopt strlistopt", "String list option.", opts_.strlist_opt_);
+  AddIntOption("wc:*:val wc_*_val", "Wildcard int option, one value per key.", &SimBackend::GetWC, &SimBackend::SetWC);
+  AddOptionSynonyms_OutOfLine("ool_intopt", "tech:intopt");
+  AddOptionSynonyms_OutOfLine("ool_stropt", "tech:stropt");
   AddSolveResults({{mp::sol::FAILURE + 1, "fatal error 1"},
                    {mp::sol::LIMIT_FEAS_NEW + 1, "AI iteration limit, feasible solution"}});
 }
